@@ -169,6 +169,18 @@ namespace hv
         }
     };
     template <int K>
+    struct FnD   // element + a whole dictionary handed through unchanged; returns a dictionary (an inner map_ lives in the body)
+    {
+        static constexpr auto name = "fnd";
+        static Port<TSD<Int, TS<Int>>> compose(Wiring &w, Port<TS<Int>> a, Port<TSD<Int, TS<Int>>> shared)
+        {
+            PortVal r;
+            interpret(w, ctx().graphs.at("fn" + std::to_string(K)),
+                      {PortVal{a.erased(), PT::Int}, PortVal{shared.erased(), PT::Other, "tsd"}}, &r);
+            return Port<TSD<Int, TS<Int>>>{w, r.ref};
+        }
+    };
+    template <int K>
     struct Fn0
     {
         static constexpr auto name = "fn0";
@@ -240,6 +252,7 @@ namespace hv
         if (n == "fn2") return dispatch_k<Fn2>(k, [](WiredFn f) { return f; });
         if (n == "fnk1") return dispatch_k<FnK1>(k, [](WiredFn f) { return f; });
         if (n == "fnk2") return dispatch_k<FnK2>(k, [](WiredFn f) { return f; });
+        if (n == "fnd") return dispatch_k<FnD>(k, [](WiredFn f) { return f; });
         if (n == "fn0") return dispatch_k<Fn0>(k, [](WiredFn f) { return f; });
         if (n == "sum") return fn<VSum2>();
         if (n == "max") return fn<VMax2>();
